@@ -121,6 +121,8 @@ where
             if let Err(e) = tx.send(tracker.stats()) {
                 eprintln!("Sending chain statistics failed: {e}");
             }
+            #[cfg(feature = "verif-hooks")]
+            crate::verif::global_event("worker_sent", &[i as u64 + 1, total as u64]);
             last = now;
         }
 
@@ -254,8 +256,15 @@ where
             let mut n_finished = 0;
             let mut most_recent = vec![None; rxs.len()];
             let mut total_progress;
+            #[cfg(feature = "verif-hooks")]
+            let mut verif_iter: u64 = 0;
 
             loop {
+                #[cfg(feature = "verif-hooks")]
+                {
+                    crate::verif::global_event("reporter_iter", &[verif_iter, n_finished as u64]);
+                    verif_iter += 1;
+                }
                 for (i, rx) in rxs.iter().enumerate() {
                     while let Ok(stats) = rx.recv_timeout(timeout_ms) {
                         most_recent[i] = Some(stats)
@@ -316,6 +325,16 @@ where
                     active.remove(*i);
                 }
 
+                #[cfg(feature = "verif-hooks")]
+                crate::verif::global_event(
+                    "reporter_book",
+                    &[
+                        verif_iter,
+                        n_finished as u64,
+                        active.len() as u64,
+                        next_active as u64,
+                    ],
+                );
                 if n_finished >= most_recent.len() {
                     break;
                 }
